@@ -227,6 +227,104 @@ def Sender.chunks (s : Sender) : List ByteArray := s.wire ++ s.queue
 /-- Everything accepted by the send half so far, in order. -/
 def Sender.stream (s : Sender) : ByteArray := joinB s.chunks ++ s.cur
 
+/-! ## Physical buffer ring (send half, with aliasing) -/
+
+/-- Send half with the `numBuffers` physical write buffers made explicit.
+`getB mem i` = the bytes written into physical buffer `i` since it was last handed
+to the sender (`WriteBuf[0:WritePos]` for the current one); `cur` = the buffer
+`c.WriteBuf` aliases; `toW` = the `toWriter` channel: slice headers
+(buffer, length) - the bytes are read from `mem` only when the writer
+goroutine calls `conn.Write`; `fromW` = the `fromWriter` channel; `wids` = which physical buffer each
+completed `conn.Write` was given (compared with the Go code's buffer
+identities by the driver). -/
+structure Ring where
+  mem : Array ByteArray := Array.replicate numBuffers ByteArray.empty
+  cur : Nat := 0
+  toW : List (Nat × Nat) := []
+  fromW : List Nat := [1, 2]
+  wire : List ByteArray := []
+  wids : List Nat := []
+  sent : Nat := 0
+  flushed : Nat := 0
+
+def Ring.init : Ring := {}
+
+/-- content of physical buffer `i` -/
+def getB (m : Array ByteArray) (i : Nat) : ByteArray := m.getD i ByteArray.empty
+
+/-- overwrite physical buffer `i` -/
+def upd (m : Array ByteArray) (i : Nat) (v : ByteArray) : Array ByteArray := m.setIfInBounds i v
+
+/-- `_, err := c.conn.Write(buf); c.fromWriter <- buf[0:cap(buf)]` -/
+def Ring.writerStep (r : Ring) : Ring :=
+  match r.toW with
+  | [] => r
+  | (i, len) :: t => { r with toW := t, wire := r.wire ++ [(getB r.mem i).extract 0 len],
+                              wids := r.wids ++ [i], fromW := r.fromW ++ [i] }
+
+def Ring.writerSteps : Nat → Ring → Ring
+  | 0, r => r
+  | k + 1, r => writerSteps k r.writerStep
+
+/-- `Conn.Flush` on the ring: queue the slice `WriteBuf[0:WritePos]`, take the
+next free buffer from `fromWriter` (blocks while that channel is empty, i.e.
+until the writer goroutine has returned one), `WritePos = 0`. -/
+def Ring.flush (k : Nat) (r : Ring) : Ring :=
+  if (getB r.mem r.cur).size = 0 then r else
+    let r1 : Ring := { r with sent := r.sent + (getB r.mem r.cur).size,
+                              toW := r.toW ++ [(r.cur, (getB r.mem r.cur).size)] }
+    let r2 := r1.writerSteps (max k (if r1.fromW.isEmpty then 1 else 0))
+    match r2.fromW with
+    | [] => r2   -- unreachable: a writer step always returns a buffer
+    | i :: t => { r2 with fromW := t, cur := i, mem := upd r2.mem i ByteArray.empty,
+                          flushed := r2.flushed + 1 }
+
+def Ring.flushS (sch : Sched) (r : Ring) : Ring := r.flush (sch r.flushed)
+
+def Ring.put (b : ByteArray) (r : Ring) : Ring :=
+  { r with mem := upd r.mem r.cur (getB r.mem r.cur ++ b) }
+
+def Ring.reserve (sch : Sched) (n : Nat) (r : Ring) : Ring :=
+  if (getB r.mem r.cur).size + n > writeBufSize then r.flushS sch else r
+
+def Ring.sendDataLoop (sch : Sched) (val : ByteArray) (off : Nat) (r : Ring) : Ring :=
+  if _h : off < val.size then
+    let r := if (getB r.mem r.cur).size ≥ writeBufSize then r.flushS sch else r
+    let n := min (writeBufSize - (getB r.mem r.cur).size) (val.size - off)
+    if _hn : n = 0 then r else
+      sendDataLoop sch val (off + n) (r.put (val.extract off (off + n)))
+  else r
+termination_by val.size - off
+decreasing_by simp only [n, r] at _hn; omega
+
+def Ring.sendBE (sch : Sched) (k n : Nat) (r : Ring) : Ring := (r.reserve sch k).put (be k n)
+
+def Ring.sendVal (sch : Sched) (r : Ring) : Val → Ring
+  | .byte b => (r.reserve sch 1).put [b].toByteArray
+  | .u16 n => r.sendBE sch 2 n
+  | .u32 n => r.sendBE sch 4 n
+  | .data d => (r.sendBE sch 4 d.size).sendDataLoop sch d 0
+  | .str d => (r.sendBE sch 4 d.size).sendDataLoop sch d 0
+  | .label n => r.sendBE sch 16 n
+  | .sizes l => l.foldl (fun r x => r.sendBE sch 4 x) (r.sendBE sch 4 l.length)
+
+def Ring.step (sch : Sched) (r : Ring) : Op → Ring
+  | .send v => r.sendVal sch v
+  | .flush => r.flushS sch
+  | .needSpace n => r.reserve sch n
+
+def Ring.run (sch : Sched) (ops : List Op) (r : Ring) : Ring := ops.foldl (Ring.step sch) r
+
+/-- What the ring state means as a value-level sender state. -/
+def Ring.abs (r : Ring) : Sender :=
+  { cur := getB r.mem r.cur, queue := r.toW.map (fun p => (getB r.mem p.1).extract 0 p.2),
+    wire := r.wire, sent := r.sent, flushed := r.flushed }
+
+/-- `Conn.Close` on the ring. -/
+def Ring.close (sch : Sched) (r : Ring) : Ring :=
+  let r := r.flushS sch
+  r.writerSteps r.toW.length
+
 /-! ## Receive half -/
 
 inductive Err where
